@@ -571,6 +571,18 @@ func (a *FA) lin(v ssa.Value, depth int) Lin {
 			if k, ok := constInt64(stripConv(x.Y)); ok && k >= 0 && k < 62 {
 				return linConst(0).addScaled(a.lin(x.X, depth+1), int64(1)<<uint(k))
 			}
+		case token.OR:
+			// x | (2^c-1)  ==  ((x >> c) << c) + 2^c-1   (the last position of x's 2^c-aligned block, signed or unsigned)
+			if os.Getenv("LOWCHECK_NOALIGNNORM") == "" {
+				for _, side := range [2][2]ssa.Value{{x.X, x.Y}, {x.Y, x.X}} {
+					if k, ok := constInt64(stripConv(side[1])); ok && k > 0 {
+						if c, ok := log2(uint64(k) + 1); ok && c > 0 && c < 32 {
+							sh := "(>> " + a.VN(side[0]) + " c:" + fmt.Sprint(c) + ")"
+							return linConst(k).addScaled(linAtom(sh), int64(1)<<uint(c))
+						}
+					}
+				}
+			}
 		case token.AND, token.AND_NOT:
 			// x &^ (2^c-1)  ==  x & -2^c  ==  (x >> c) << c   (floor to a multiple of 2^c, signed or unsigned)
 			if os.Getenv("LOWCHECK_NOALIGNNORM") == "" {
@@ -1040,10 +1052,13 @@ func (a *FA) BoundsAt(blk *ssa.BasicBlock, L Lin) Bounds {
 
 func (a *FA) boundsFrom(conds []Cond, L Lin) Bounds {
 	var bd Bounds
-	// what the value is by construction: a math/bits count lies in [0, width]
+	// what the value is by construction: a math/bits count lies in [0, width]; a length or capacity is >= 0
 	if v := a.AtomValueOfLin(L); v != nil {
 		if call, ok := v.(*ssa.Call); ok {
 			name := calleeName(call.Common())
+			if name == "builtin len" || name == "builtin cap" {
+				bd.lower(0, "a length")
+			}
 			if wd := bitsCountWidth(name); wd > 0 {
 				bd.lower(0, "a bit count")
 				bd.upper(wd, "a bit count")
@@ -1403,4 +1418,80 @@ func singleStoreCell(addr ssa.Value) ssa.Value {
 		return nil
 	}
 	return stored
+}
+
+// elemLoadLin: v is cont[idx] with idx as a linear form. Besides a plain element load this recognises the
+// "predecessor carried round the loop" spelling - prev := xs[a]; for i := a+1; ..; i++ { cur := xs[i]; use(prev, cur);
+// prev = cur } - where the loop-header phi prev is xs[i-1] in every iteration: its entry value is xs[init-step+k] and
+// every back edge brings xs[i+k] for the counter i (init, step) of the same loop header.
+func (a *FA) elemLoadLin(v ssa.Value) (ssa.Value, Lin, bool) {
+	if c, i, ok := asElemLoad(v); ok {
+		return c, a.Lin(i), true
+	}
+	p, ok := stripConv(v).(*ssa.Phi)
+	if !ok || !isLoopHeaderPhi(p) {
+		return nil, Lin{}, false
+	}
+	var cont ssa.Value
+	var iv *ssa.Phi
+	var k Lin
+	haveBack := false
+	var entry []Lin
+	for i, e := range p.Edges {
+		c, idx, ok := asElemLoad(e)
+		if !ok {
+			return nil, Lin{}, false
+		}
+		if cont == nil {
+			cont = c
+		} else if a.VN(cont) != a.VN(c) {
+			return nil, Lin{}, false
+		}
+		L := a.Lin(idx)
+		if !p.Block().Dominates(p.Block().Preds[i]) {
+			entry = append(entry, L)
+			continue
+		}
+		// back edge: index = counter + const
+		var q *ssa.Phi
+		for atom, cf := range L.T {
+			if ph, ok := a.AtomValue(atom).(*ssa.Phi); ok && cf == 1 && ph.Block() == p.Block() {
+				q = ph
+			}
+		}
+		if q == nil || len(L.T) != 1 {
+			return nil, Lin{}, false
+		}
+		off := L.Sub(linAtom(a.VN(q)))
+		if haveBack && (q != iv || !off.Eq(k)) {
+			return nil, Lin{}, false
+		}
+		iv, k, haveBack = q, off, true
+	}
+	if !haveBack || len(entry) == 0 {
+		return nil, Lin{}, false
+	}
+	af := a.affineOf(iv)
+	if af == nil || !af.ok || af.step == 0 {
+		return nil, Lin{}, false
+	}
+	want := af.init.Add(linConst(-af.step)).Add(k)
+	for _, e := range entry {
+		if !e.Eq(want) {
+			return nil, Lin{}, false
+		}
+	}
+	return cont, linAtom(a.VN(iv)).Add(linConst(-af.step)).Add(k), true
+}
+
+// innermostLoop: the header of the smallest natural loop whose body contains b (nil: b is in no loop).
+func innermostLoop(b *ssa.BasicBlock) *ssa.BasicBlock {
+	var best *ssa.BasicBlock
+	bestN := 0
+	for _, h := range b.Parent().Blocks {
+		if body := loopBody(h); body[b] && (best == nil || len(body) < bestN) {
+			best, bestN = h, len(body)
+		}
+	}
+	return best
 }
